@@ -957,7 +957,7 @@ theorem pad_fits (ad : Addr) (had : ad.Accepted) (pad : Bytes) (hp : pad.length 
   | v6 ip p => obtain ⟨h1, _⟩ := had; simp [Socks5Addr.encode, h1]; omega
 
 /-! concrete data for the non-vacuity examples (toy crypto, `Crypto.toy_lawful`) -/
-namespace Demo
+namespace Demo22
 def ctx : Ctx := ⟨.b3aes128, List.replicate 16 1, [], []⟩
 def ad : Addr := .v4 [10, 0, 0, 1] 443
 /-- the client's session: fresh salt, target address, no echoed salt yet -/
@@ -981,6 +981,6 @@ def cctx : Ctx := ⟨.b3aes128, ukey, [ipsk], []⟩
 def ewire : Bytes := (encodeAll Crypto.toy cctx cs {} (([1, 2, 3], r) :: ws)).1
 def uss : Sess := ⟨.server, List.replicate 16 9, some cs.salt, some user, some ad⟩
 def uwire : Bytes := (encodeAll Crypto.toy sctx uss {} (([8, 9], r) :: ws)).1
-end Demo
+end Demo22
 
 end Octo.Ss
